@@ -14,6 +14,9 @@ package martian
 //@ ghost ivar modReqFailed() bool
 //@ ghost ivar sawClosing() bool
 //@ ghost ivar readOK() bool
+//@ ghost ivar wrotePA() bool
+//@ axiom canon("Proxy-Authenticate") == "Proxy-Authenticate"
+//@ pred hasPA(h http.Header) = ("Proxy-Authenticate" in h) && len(h["Proxy-Authenticate"]) > 0
 
 // The two trace hooks: one completion report per call (the hook body is user code).
 //@ func (*Proxy).traceReadRequest
@@ -77,10 +80,13 @@ package martian
 //@ modifies *
 //@ preserves proxyConn.* Proxy.* bufio.ReadWriter.* http.Response.StatusCode http.Response.Request http.Request.Method http.Response.Header http.Request.Header http.Request.URL http.Request.Body http.Response.Body
 //@ ensures result != nil && result.Header != nil && result.Request == req && result.StatusCode >= 400
+//@ ensures result.StatusCode == 407 ==> hasPA(result.Header)
 
+//@ ghost fn connectErrRes(error) *http.Response
 //@ func maybeConnectErrorResponse
 //@ trusted
 //@ pure
+//@ ensures result == connectErrRes(err)
 //@ ensures result != nil ==> result.Header != nil && result.StatusCode / 100 != 2 && result.StatusCode != 101 && result.Request != nil
 
 // (the MITM filter is a user-supplied predicate)
@@ -165,9 +171,10 @@ package martian
 // is made when the tunnel ends; nil is returned only if the response was
 // flushed and the connection may be reused (never while shutting down).
 //@ func (*proxyConn).writeResponse
-//@ property C13 C02 C11
+//@ property C13 C02 C11 C04
+//@ ghostset wrotePA() := old(hasPA(res.Header))
 //@ requires p != nil && p.Proxy != nil && p.conn != nil && p.brw != nil && p.brw.Writer != nil && res != nil && res.Request != nil && res.Header != nil
-//@ modifies *, nWrote(), wroteStatus(), sawClosing()
+//@ modifies *, nWrote(), wroteStatus(), sawClosing(), wrotePA()
 //@ preserves proxyConn.Proxy proxyConn.brw proxyConn.conn Proxy.* bufio.ReadWriter.* http.Response.StatusCode http.Response.Request http.Request.Method
 //@ ensures nWrote() == old(nWrote()) || nWrote() == old(nWrote()) + 1
 //@ ensures !deferredReport(old(res.Request.Method), old(res.StatusCode)) ==> nWrote() == old(nWrote()) + 1 && wroteStatus() == old(res.StatusCode)
@@ -179,12 +186,23 @@ package martian
 
 // writeErrorResponse: a locally generated (or relayed upstream-proxy) error is
 // reported exactly once.
+// L4.2: the challenge of a locally generated 407 survives the response
+// modifiers (hop-by-hop removal) and is on the response that is written.
+//@ func restoreProxyAuthenticate
+//@ property C04
+//@ requires res != nil && res.Header != nil
+//@ modifies res.Header[*]
+//@ ensures res.StatusCode == 407 && len(challenge) > 0 ==> hasPA(res.Header)
+//@ ensures forall k string :: k != "Proxy-Authenticate" ==> (k in res.Header) == old(k in res.Header) && res.Header[k] == old(res.Header[k])
+//@ ensures old(hasPA(res.Header)) ==> res.Header["Proxy-Authenticate"] == old(res.Header["Proxy-Authenticate"])
+
 //@ func (*proxyConn).writeErrorResponse
-//@ property C13 C12
+//@ property C13 C12 C04
 //@ requires p != nil && p.Proxy != nil && p.conn != nil && p.brw != nil && p.brw.Writer != nil && req != nil
-//@ modifies *, nWrote(), wroteStatus(), sawClosing()
+//@ modifies *, nWrote(), wroteStatus(), sawClosing(), wrotePA()
 //@ preserves proxyConn.Proxy proxyConn.brw proxyConn.conn Proxy.* bufio.ReadWriter.* http.Response.StatusCode http.Response.Request http.Request.Method
 //@ ensures nWrote() == old(nWrote()) + 1
+//@ ensures connectErrRes(err) == nil && wroteStatus() == 407 ==> wrotePA()
 
 // tunnel: the reply is written; whether the copy happens or not, the exchange
 // is reported complete exactly once (here or by writeResponse on failure).
@@ -192,7 +210,7 @@ package martian
 //@ property C13 C03
 //@ requires p != nil && p.Proxy != nil && p.conn != nil && p.brw != nil && p.brw.Writer != nil && res != nil && res.Request != nil && res.Header != nil
 //@ requires deferredReport(res.Request.Method, res.StatusCode)
-//@ modifies *, nWrote(), wroteStatus(), sawClosing()
+//@ modifies *, nWrote(), wroteStatus(), sawClosing(), wrotePA()
 //@ preserves proxyConn.Proxy proxyConn.brw proxyConn.conn Proxy.* bufio.ReadWriter.* http.Response.StatusCode http.Response.Request http.Request.Method
 //@ ensures !sawClosing() ==> nWrote() == old(nWrote()) + 1
 //@ ensures nWrote() == old(nWrote()) || nWrote() == old(nWrote()) + 1
@@ -200,7 +218,7 @@ package martian
 //@ func (*proxyConn).handleUpgradeResponse
 //@ property C13 C03
 //@ requires p != nil && p.Proxy != nil && p.conn != nil && p.brw != nil && p.brw.Writer != nil && res != nil && res.Request != nil && res.Header != nil && res.StatusCode == 101 && res.Request.Method != "CONNECT"
-//@ modifies *, nWrote(), wroteStatus(), sawClosing()
+//@ modifies *, nWrote(), wroteStatus(), sawClosing(), wrotePA()
 //@ preserves proxyConn.Proxy proxyConn.brw proxyConn.conn Proxy.* bufio.ReadWriter.* http.Response.StatusCode http.Response.Request http.Request.Method
 //@ ensures (!sawClosing() ==> nWrote() == old(nWrote()) + 1) && result != nil
 //@ ensures nWrote() == old(nWrote()) || nWrote() == old(nWrote()) + 1
@@ -218,7 +236,7 @@ package martian
 //@ func (*proxyConn).handleMITM
 //@ property C13 C04
 //@ requires p != nil && p.Proxy != nil && p.conn != nil && p.brw != nil && p.brw.Writer != nil && p.brw.Reader != nil && p.MITMConfig != nil && req != nil && req.Method == "CONNECT" && req.URL != nil
-//@ modifies *, nWrote(), wroteStatus(), sawClosing()
+//@ modifies *, nWrote(), wroteStatus(), sawClosing(), wrotePA()
 //@ preserves Proxy.* http.Request.Method
 //@ ensures nWrote() == old(nWrote()) + 1 || (sawClosing() && nWrote() == old(nWrote()))
 //@ ensures upstream() == old(upstream())
@@ -229,7 +247,7 @@ package martian
 //@ func (*proxyConn).handleConnectRequest
 //@ property C13 C04
 //@ requires p != nil && p.Proxy != nil && p.conn != nil && p.brw != nil && p.brw.Writer != nil && p.brw.Reader != nil && req != nil && req.Method == "CONNECT" && req.URL != nil && req.Header != nil
-//@ modifies *, nWrote(), wroteStatus(), sawClosing(), modReqFailed(), upstream()
+//@ modifies *, nWrote(), wroteStatus(), sawClosing(), modReqFailed(), upstream(), wrotePA()
 //@ preserves Proxy.*
 //@ ensures nWrote() == old(nWrote()) + 1 || (sawClosing() && nWrote() == old(nWrote()))
 //@ ensures modReqFailed() ==> upstream() == old(upstream()) && nWrote() == old(nWrote()) + 1
@@ -241,7 +259,7 @@ package martian
 //@ func (*proxyConn).handle
 //@ property C13 C04 C11
 //@ requires p != nil && p.Proxy != nil && p.conn != nil && p.brw != nil && p.brw.Writer != nil && p.brw.Reader != nil
-//@ modifies *, nRead(), nWrote(), wroteStatus(), sawClosing(), modReqFailed(), upstream(), readOK()
+//@ modifies *, nRead(), nWrote(), wroteStatus(), sawClosing(), modReqFailed(), upstream(), readOK(), wrotePA()
 //@ ensures nRead() == old(nRead()) + 1
 //@ ensures readOK() && !sawClosing() ==> nWrote() == old(nWrote()) + 1
 //@ ensures !readOK() ==> nWrote() == old(nWrote()) && upstream() == old(upstream())
